@@ -16,7 +16,7 @@ namespace sim {
 
 enum FaultKind {
   F_TRUNC = 0,   // a = new length
-  F_SETBYTE,     // a = off, b = pattern (0..6) or 7 with c = explicit value
+  F_SETBYTE,     // a = off, b = pattern (0..13) or 14 with c = explicit value
   F_SET32,       // a = off, b = pattern (0..10) or 11 with c = explicit value
   F_VARINT,      // a = off, b = pattern (0..10, 11 = overlong), c = mode (0 in place, 1 shift)
   F_ZERO,        // a = off, b = len
